@@ -18,6 +18,10 @@ def run(tier, seed, t0):
     for i in range(ns):
         jobs.append(Job("prefix-%d" % i, "drv_c18", "optim", "spqlios-fma",
                         ["--mode", "prefix", "--seed", seed, "--shard", i, "--nshards", ns, "--max_offsets", 0 if thorough else 1500], timeout=7200))
+    # objects whose last array is read with one large request (n or N >= 4096): sampled offsets, dense inside the last array
+    for kind in ("LweKey", "TLweKey", "TGswKey", "LweSample", "TLweSample"):
+        jobs.append(Job("prefix-large-%s" % kind, "drv_c18", "optim", "spqlios-fma",
+                        ["--mode", "prefix", "--seed", seed, "--size", 3, "--kind", kind, "--max_offsets", 6000 if thorough else 1500], timeout=7200))
     for i in range(4):
         jobs.append(Job("substitute-%d" % i, "drv_c18", "optim", "spqlios-fma",
                         ["--mode", "substitute", "--seed", seed, "--shard", i, "--nshards", 4], timeout=3600))
